@@ -722,6 +722,7 @@ func c17Keys(c *Ctx) {
 }
 
 var c17Canaries = []Canary{
+	{Name: "r4-blob-source-unrestricted", ExpectKey: "C17.C11/R3", Edits: []Edit{{File: "git/config.go", Find: "	out, err := c.gitConfig(\"-l\", \"--blob\", revision)\n	if err != nil {\n		return nil, err\n	}\n	return ParseConfigLines(out, true), nil", Repl: "	out, err := c.gitConfig(\"-l\", \"--blob\", revision)\n	if err != nil {\n		return nil, err\n	}\n	return ParseConfigLines(out, false), nil"}}},
 	{Name: "drop-lf-check", ExpectKey: "C17.O2", Edits: []Edit{{File: "creds/creds.go", Find: `if strings.Contains(item, "\n") {`, Repl: `if strings.Contains(k, "\n") {`}}},
 	{Name: "drop-nul-check", ExpectKey: ":NUL", Edits: []Edit{{File: "creds/creds.go", Find: `if strings.Contains(item, string(rune(0))) {`, Repl: `if false && strings.Contains(item, string(rune(0))) {`}}},
 	{Name: "cr-needs-both", ExpectKey: ":CR", Edits: []Edit{{File: "creds/creds.go", Find: `if protectProtocol && strings.Contains(item, "\r") {`, Repl: `if protectProtocol && len(k) > 4 && strings.Contains(item, "\r") {`}}},
